@@ -27,6 +27,8 @@ pub struct Compiler {
 
     /// Loop context stack for break/continue
     loop_stack: Vec<LoopContext>,
+    /// Number of block scopes (PushScope) currently open at this point of the function body
+    scope_depth: usize,
 
     /// Label to loop index mapping
     labels: FxHashMap<JsString, usize>,
@@ -78,7 +80,24 @@ struct PrivateMemberInfo {
 }
 
 /// Context for a loop (for break/continue handling)
+/// What kind of statement a break/continue context belongs to
+#[derive(Clone, Copy, PartialEq, Eq)]
+enum ContextKind {
+    /// Iteration statement: target of unlabelled `break` and `continue`
+    Loop,
+    /// `switch`: target of unlabelled `break` only
+    Switch,
+    /// Labelled statement: only reachable through its label
+    Label,
+}
+
 struct LoopContext {
+    /// What this context is (unlabelled break/continue skip contexts they cannot target)
+    kind: ContextKind,
+    /// Number of block scopes open where `break` lands
+    break_scope_depth: usize,
+    /// Number of block scopes open where `continue` lands
+    continue_scope_depth: usize,
     /// Label for this loop (if any)
     label: Option<JsString>,
     /// Jump placeholders for break statements
@@ -100,6 +119,7 @@ impl Compiler {
         Self {
             builder: BytecodeBuilder::new(),
             loop_stack: Vec::new(),
+            scope_depth: 0,
             labels: FxHashMap::default(),
             try_depth: 0,
             hoisted_vars: FxHashSet::default(),
@@ -240,13 +260,68 @@ impl Compiler {
         self.push_loop_with_iterator(label, None);
     }
 
+    /// Push a break context for a `switch` statement
+    fn push_switch(&mut self) {
+        self.push_context(ContextKind::Switch, None, None);
+    }
+
+    /// Push a context for a labelled statement
+    fn push_label(&mut self, label: JsString) {
+        self.push_context(ContextKind::Label, Some(label), None);
+    }
+
+    /// Emit PushScope and track the compile-time scope depth
+    fn emit_push_scope(&mut self) {
+        self.builder.emit(Op::PushScope);
+        self.scope_depth += 1;
+    }
+
+    /// Emit PopScope and track the compile-time scope depth
+    fn emit_pop_scope(&mut self) {
+        self.builder.emit(Op::PopScope);
+        self.scope_depth = self.scope_depth.saturating_sub(1);
+    }
+
+    /// The innermost loop's `break` lands `levels` scopes further out than where the
+    /// context was pushed (per-iteration scopes are pushed before the loop context)
+    fn set_break_scope_depth_outward(&mut self, levels: usize) {
+        if let Some(ctx) = self.loop_stack.last_mut() {
+            ctx.break_scope_depth = ctx.break_scope_depth.saturating_sub(levels);
+        }
+    }
+
     /// Push a loop context with an iterator register (for for-of loops)
     fn push_loop_with_iterator(&mut self, label: Option<JsString>, iterator_reg: Option<Register>) {
+        self.push_context(ContextKind::Loop, label, iterator_reg);
+    }
+
+    fn push_context(
+        &mut self,
+        kind: ContextKind,
+        label: Option<JsString>,
+        iterator_reg: Option<Register>,
+    ) {
         let index = self.loop_stack.len();
         if let Some(ref l) = label {
             self.labels.insert(l.cheap_clone(), index);
         }
+        if kind == ContextKind::Loop {
+            // `continue label` on a label that wraps this loop lands where this loop's own
+            // `continue` lands; its jumps may be emitted before the target is known, so the
+            // scope depth has to be known up front.
+            let depth = self.scope_depth;
+            for ctx in self.loop_stack.iter_mut().rev() {
+                if ctx.kind == ContextKind::Label && ctx.continue_target.is_none() {
+                    ctx.continue_scope_depth = depth;
+                } else {
+                    break;
+                }
+            }
+        }
         self.loop_stack.push(LoopContext {
+            kind,
+            break_scope_depth: self.scope_depth,
+            continue_scope_depth: self.scope_depth,
             label,
             break_jumps: Vec::new(),
             continue_target: None,
@@ -271,8 +346,10 @@ impl Compiler {
 
         // Start from the current (innermost) context and work backwards
         // Set continue target for the current loop
+        let mut inner_continue_scope_depth = self.scope_depth;
         if let Some(ctx) = self.loop_stack.get_mut(len - 1) {
             ctx.continue_target = Some(target);
+            inner_continue_scope_depth = ctx.continue_scope_depth;
             all_pending_jumps.append(&mut ctx.continue_jumps);
         }
 
@@ -283,6 +360,7 @@ impl Compiler {
                 // Only propagate if this is a labeled context and it doesn't have a continue target
                 if ctx.label.is_some() && ctx.continue_target.is_none() {
                     ctx.continue_target = Some(target);
+                    ctx.continue_scope_depth = inner_continue_scope_depth;
                     all_pending_jumps.append(&mut ctx.continue_jumps);
                 } else {
                     // Stop propagating if we hit a context that's not a label wrapper
@@ -337,9 +415,10 @@ impl Compiler {
                 ))
             })?
         } else {
+            // An unlabelled break leaves the innermost loop or switch (never a labelled block)
             self.loop_stack
-                .len()
-                .checked_sub(1)
+                .iter()
+                .rposition(|ctx| ctx.kind != ContextKind::Label)
                 .ok_or_else(|| JsError::syntax_error_simple("Illegal break statement"))?
         };
 
@@ -348,6 +427,11 @@ impl Compiler {
             .loop_stack
             .get(loop_idx)
             .map(|ctx| ctx.try_depth as u8)
+            .unwrap_or(0);
+        let target_scope_depth = self
+            .loop_stack
+            .get(loop_idx)
+            .map(|ctx| ctx.break_scope_depth as u16)
             .unwrap_or(0);
 
         // Emit IteratorClose before break if this is a for-of loop
@@ -362,6 +446,7 @@ impl Compiler {
         let idx = self.builder.emit(Op::Break {
             target: 0,
             try_depth: target_try_depth,
+            scope_depth: target_scope_depth,
         });
         let jump = JumpPlaceholder {
             instruction_index: idx,
@@ -384,9 +469,10 @@ impl Compiler {
                 ))
             })?
         } else {
+            // An unlabelled continue targets the innermost loop (not a switch or labelled block)
             self.loop_stack
-                .len()
-                .checked_sub(1)
+                .iter()
+                .rposition(|ctx| ctx.kind == ContextKind::Loop)
                 .ok_or_else(|| JsError::syntax_error_simple("Illegal continue statement"))?
         };
 
@@ -396,6 +482,11 @@ impl Compiler {
             .get(loop_idx)
             .map(|ctx| ctx.try_depth)
             .unwrap_or(0) as u8;
+        let target_scope_depth = self
+            .loop_stack
+            .get(loop_idx)
+            .map(|ctx| ctx.continue_scope_depth)
+            .unwrap_or(0) as u16;
 
         if let Some(ctx) = self.loop_stack.get_mut(loop_idx) {
             if let Some(target) = ctx.continue_target {
@@ -403,12 +494,14 @@ impl Compiler {
                 self.builder.emit(Op::Continue {
                     target: target as u32,
                     try_depth: target_try_depth,
+                    scope_depth: target_scope_depth,
                 });
             } else {
                 // Target not yet known, save placeholder
                 let idx = self.builder.emit(Op::Continue {
                     target: 0,
                     try_depth: target_try_depth,
+                    scope_depth: target_scope_depth,
                 });
                 let jump = JumpPlaceholder {
                     instruction_index: idx,
